@@ -123,6 +123,16 @@ func c6Check(c *Ctx, lv map[string]int64) {
 			}
 			extra = append(extra, a)
 		}
+		// a further guard is harmless when it is implied by the arm's own level (e.g. the negated cheap pre-check)
+		if _, known := want[eq]; known {
+			var keep []string
+			for _, a := range extra {
+				if !impliedByLevel(a, []string{"lvl", "ent.Level"}, eq) {
+					keep = append(keep, a)
+				}
+			}
+			extra = keep
+		}
 		w, ok := want[eq]
 		if !ok {
 			c.Bad("R6.1", name, "after-arm", call.Pos(), "After is attached under guards %v: not an arm for Panic/Fatal/DPanic", atoms)
@@ -708,4 +718,33 @@ func c6Actions(c *Ctx) {
 	})
 	c.Check(len(callers) == 0, "R6.5", ep, "stub-callers", token.NoPos, "no non-test code outside the exit package calls Stub/WithStub/Unstub (found %v)", callers)
 	_ = types.Typ
+}
+
+var reLvlCmp = regexp.MustCompile(`^(lvl|ent\.Level) (==|!=|<|<=|>|>=) (-?\d+)$`)
+
+// impliedByLevel: is the (possibly disjunctive) guard string true for every
+// entry whose level is L? Only comparisons of the level with constants are
+// evaluated; any other atom counts as not implied.
+func impliedByLevel(guard string, vars []string, L int64) bool {
+	g := strings.TrimSuffix(strings.TrimPrefix(guard, "("), ")")
+	for _, disj := range strings.Split(g, " ∨ ") {
+		all := true
+		for _, a := range strings.Split(disj, " ∧ ") {
+			m := reLvlCmp.FindStringSubmatch(strings.TrimSpace(a))
+			if m == nil {
+				all = false
+				break
+			}
+			k, _ := parseInt(m[3])
+			ok := map[string]bool{"==": L == k, "!=": L != k, "<": L < k, "<=": L <= k, ">": L > k, ">=": L >= k}[m[2]]
+			if !ok {
+				all = false
+				break
+			}
+		}
+		if all {
+			return true
+		}
+	}
+	return false
 }
